@@ -4,7 +4,7 @@ KINDS = ["na", "nB", "da", "wq", "xq", "rq", "f"]
 
 
 def gen(rng, tier):
-    n_cases = 400 if tier == "quick" else 6000
+    n_cases = 400 if tier == "quick" else 20000
     for i in range(n_cases):
         threads = rng.choice([2, 2, 3, 4, 4, 7, 8, 8, 12, 15, 16, 16])
         r = rng.random()
